@@ -211,9 +211,12 @@ class Parser(object):
 
     def p_enum_def(self, t):
         '''enum_def : ENUM unique_id enum_body SEMI'''
-        node = model.Enum(t[2], t[3])
-        self.typedecls[t[2]] = node
-        self.nodes.append(node)
+        try:
+            node = model.Enum(t[2], t[3])
+            self.typedecls[t[2]] = node
+            self.nodes.append(node)
+        except model.ModelError as e:  # actual raise is postponed till end of parsing
+            self._parser_error(str(e), t.lineno(2), t.lexpos(2))
 
     def p_enum_body(self, t):
         '''enum_body : LBRACE enum_member_list RBRACE'''
